@@ -32,6 +32,11 @@ structure UProc where
 
 def UProc.empty : UProc := ⟨false, false, false, false, []⟩
 
+/-- `u, ok := t.clauses[pi]; if !ok { u = &userDefined{} }` -/
+def orEmpty : Option UProc → UProc
+  | some u => u
+  | none => UProc.empty
+
 /-- an entry of `VM.procedures` -/
 inductive Procedure where
   | builtin
@@ -97,9 +102,7 @@ def flush (tx : Text) : Except LoadErr Text :=
   match tx.buf with
   | [] => .ok tx
   | (pi, _) :: _ =>
-    let u := match tx.clauses.get pi with
-      | some u => u
-      | none => UProc.empty
+    let u := orEmpty (tx.clauses.get pi)
     if u.clauses ≠ [] ∧ u.discontiguous = false then .error (.discontiguous pi)
     else .ok { tx with clauses := tx.clauses.set pi { u with clauses := u.clauses ++ tx.buf.map (·.2) }, buf := [] }
 
@@ -139,10 +142,7 @@ def forEachUserDefined (tx : Text) (arg : Term) (f : UProc → UProc) : Except L
       match declPI e with
       | .error err => .error err
       | .ok pi =>
-        let u := match cs.get pi with
-          | some u => u
-          | none => UProc.empty
-        go es (cs.set pi (f u))
+        go es (cs.set pi (f (orEmpty (cs.get pi))))
   match go elems tx.clauses with
   | .ok cs => .ok { tx with clauses := cs }
   | .error e => .error e
@@ -239,15 +239,17 @@ def compileLoop (fs : FS) (call : Call) : Nat → List Item → LoadState → Lo
     | .splice items ls' => compileLoop fs call fuel (items ++ rest) ls'
     | .stop ls' e => (ls', some e)
 
+/-- one iteration of the commit loop of `VM.Compile` -/
+def commitStep (ps : Procs) (e : PI × UProc) : Procs :=
+  match ps.get e.1 with
+  | some (.user existing) =>
+    if existing.multifile = true ∧ e.2.multifile = true then
+      ps.set e.1 (.user { existing with clauses := existing.clauses ++ e.2.clauses })
+    else ps.set e.1 (.user e.2)
+  | _ => ps.set e.1 (.user e.2)
+
 /-- the commit loop of `VM.Compile` -/
-def commit (procs : Procs) (staged : Table UProc) : Procs :=
-  staged.foldl (fun ps (e : PI × UProc) =>
-    match ps.get e.1 with
-    | some (.user existing) =>
-      if existing.multifile = true ∧ e.2.multifile = true then
-        ps.set e.1 (.user { existing with clauses := existing.clauses ++ e.2.clauses })
-      else ps.set e.1 (.user e.2)
-    | _ => ps.set e.1 (.user e.2)) procs
+def commit (procs : Procs) (staged : Table UProc) : Procs := staged.foldl commitStep procs
 
 /-- the initialization goals, after the commit -/
 def runGoals (call : Call) : List Term → Procs → Procs × Option LoadErr
